@@ -807,5 +807,15 @@ func mutation(seed int64, t *target, i int) []byte {
 			b = b[:maxInput]
 		}
 	}
+	// text in another encoding: a byte order mark in front, UTF-16/32, odd tails
+	if isTextGrammar(g) {
+		p := 14
+		if g == "keyfile" {
+			p = 6
+		}
+		if rng.Intn(p) == 0 {
+			b = encFlip(rng, b)
+		}
+	}
 	return b
 }
